@@ -439,6 +439,21 @@ def cookies(chk, prog, cfg):
     # get_cookie
     finds = g1.calls_to(r"Iterator>::find$|Iterator::find$")
     from_list = bool(finds) and desc_contains(describe(prog, g1, finds[0][1]["args"][0]), lambda y: y[0] == "call" and y[1].endswith("Request::get_cookies"))
+    if finds and not from_list:
+        # both go through one shared iterator (`self.cookie_pairs()`, inlined): get_cookie searches the very chain that get_cookies collects
+        def shape(d):
+            if isinstance(d, tuple):
+                if d and d[0] == "call":
+                    return ("call", d[1], [shape(x) for x in d[2]])
+                if d and d[0] == "param":
+                    return ("param", d[1])
+                return tuple(shape(x) for x in d)
+            if isinstance(d, list):
+                return [shape(x) for x in d]
+            return d
+        gret = describe(prog, gc, 0)
+        if gret[0] == "call" and gret[1].endswith("::collect") and gret[2]:
+            from_list = shape(gret[2][0]) == shape(describe(prog, g1, finds[0][1]["args"][0]))
     rev = g1.calls_to(r"Iterator::rev$|Iterator::last$|Iterator::max_by|Iterator::min_by")
     loop_ok = None
     if not finds:
